@@ -223,7 +223,9 @@ where
             return Ok(());
         }
         if let Some(head) = self.head {
-            if slice.len() > Label::MAX_LEN - (self.len() - head) {
+            // The label under construction starts with its length octet
+            // at `head`, its content so far is what follows that octet.
+            if slice.len() > Label::MAX_LEN - (self.len() - head - 1) {
                 return Err(PushError::LongLabel);
             }
             if self.len() + slice.len() > 254 {
